@@ -7,7 +7,8 @@ package main
 //   - field names are ASCII, start with a letter, and are pairwise different ignoring case within one
 //     top-level type (so the three key styles never collide and no flattened key is duplicated);
 //     tag names are t_<n>; "Type" is never a field name (the create keys are "^" and "type");
-//   - embedded fields are unnamed structs or pointers to them and carry no tag;
+//   - embedded fields are unnamed structs or pointers to them; a third of them carries a json tag
+//     (",inline", a name, ",omitempty", "-"), which oj, sen, alt and the recomposer all ignore;
 //   - no pointer to pointer/[]byte/interface, no named non-struct types, no methods; no interface
 //     holding a value whose data word is nil (typed nil pointer or map, one-field struct of such);
 //   - strings and map keys come from pools that avoid the SEN bare-word cases owned by C10
@@ -191,7 +192,15 @@ func (g *typeGen) structT(depth int) reflect.Type {
 			if !g.opts.noEmbedPtr && g.r.Intn(3) == 0 {
 				st = reflect.PtrTo(st)
 			}
-			fs = append(fs, reflect.StructField{Name: name, Type: st, Anonymous: true})
+			sf := reflect.StructField{Name: name, Type: st, Anonymous: true}
+			if !g.opts.noTags && g.r.Intn(3) == 0 {
+				// an embedded field that carries a json tag: the encoders and the recomposer flatten it all
+				// the same (encoding/json nests under a tag NAME and drops "-": C15-embedded-tag-ignored)
+				g.tagN++
+				sf.Tag = reflect.StructTag(lib.Pick(g.r, []string{`json:",inline"`, fmt.Sprintf(`json:"t_%d"`, g.tagN), `json:",omitempty"`,
+					fmt.Sprintf(`json:"t_%d,omitempty"`, g.tagN), `json:"-"`}))
+			}
+			fs = append(fs, sf)
 		default:
 			name, ok := g.nextName()
 			if !ok {
@@ -215,7 +224,7 @@ var namedTypes = []reflect.Type{
 // types that share name AND package path (pa.Samples) or the bare name only (pb.Sample).
 var namedTypes16 = append([]reflect.Type{
 	reflect.TypeOf(pa.EmbMid{}), reflect.TypeOf(pa.EmbTag{}), reflect.TypeOf(pa.Widths{}), reflect.TypeOf(pa.WideIn{}),
-	reflect.TypeOf(pa.TLeaf{}), pb.Sample(),
+	reflect.TypeOf(pa.TLeaf{}), pb.Sample(), reflect.TypeOf(pa.EmbTagged{}), reflect.TypeOf(pa.EmbTaggedP{}),
 }, pa.Samples()...)
 
 var allNamed16 = append(append([]reflect.Type{}, namedTypes...), namedTypes16...)
